@@ -268,6 +268,7 @@ func decorateAll(root dst.Node, mk func(n dst.Node, point string) string) int {
 // cleanly are marked by a name starting with "bad:".
 func extraSnippets() map[string]string {
 	return map[string]string{
+		"empty-result-lists": "package p\n\nfunc f() () {}\n\ntype T func(int) ()\n\nvar g = func() () { return }\n\ntype I interface {\n\tM() ()\n}\n",
 		"empty-stmt":   "package p\n\nfunc f() {\n\t;\n\tfor {\n\t\t;\n\t}\nL:\n\t;\n\tgoto L\n}\n",
 		"generics":     "package p\n\ntype S[T any, U comparable] struct {\n\ta T\n\tb map[U][]T\n}\n\nfunc F[T ~int | ~string, U any](x T, y ...U) (r T) {\n\tvar s S[T, int]\n\t_ = s\n\treturn G[T, U](x)\n}\n",
 		"literals":     "package p\n\nvar (\n\ta = 1\n\tb = 1.5e3\n\tc = 'x'\n\td = \"s\"\n\te = `raw\nstring`\n\tf = 2i\n\tg = [...]int{1, 2: 3}\n\th = map[string]struct{ X, Y int }{\"k\": {1, 2}}\n\ti = func(x int) (y int) { return x }\n\tj = <-ch\n\tk = (*T)(nil)\n\tl = x.(type1)\n\tm = s[1:2:3]\n\tn = &T{A: 1}\n)\n",
